@@ -43,6 +43,28 @@ impl<'a> Visitor for V<'a> {
             if post.seq >= u64::MAX - 1 {
                 self.nontrivial = true;
             }
+            // ... and inside an RLP container (the list header is built from Encodable::length())
+            if let Some(enr) = cx.enr {
+                let r = crate::exec::guarded(|| -> Result<(), String> {
+                    use alloy_rlp::{Decodable, Encodable};
+                    if enr.length() != post.enc.len() {
+                        return Err(format!("Encodable::length() = {} but the encoding has {} bytes (seq {})", enr.length(), post.enc.len(), post.seq));
+                    }
+                    // (whether the record decodes at all is C05's matter: only records that decode alone are
+                    // expected to decode inside a list)
+                    if enr::Enr::<K>::decode(&mut post.enc.as_slice()).is_err() {
+                        return Ok(());
+                    }
+                    let list = alloy_rlp::encode(vec![enr.clone(), enr.clone()]);
+                    match Vec::<enr::Enr<K>>::decode(&mut list.as_slice()) {
+                        Ok(v) if v.len() == 2 && v.iter().all(|x| x.seq() == post.seq) => Ok(()),
+                        Ok(v) => Err(format!("a list of two copies decodes to {} records with sequence numbers {:?} (record: {})", v.len(), v.iter().map(|x| x.seq()).collect::<Vec<_>>(), post.seq)),
+                        Err(e) => Err(format!("a list of two copies of the record (seq {}) does not decode: {e:?}", post.seq)),
+                    }
+                })
+                .map_err(|p| format!("{d}: list round trip panicked: {p}"))?;
+                r.map_err(|m| format!("{d}: {m}"))?;
+            }
         }
         let (op, pre, post) = match (cx.op, cx.pre, cx.post) {
             (Some(o), Some(a), Some(b)) => (o, a, b),
@@ -155,6 +177,17 @@ impl Property for C07 {
                 })
             })
         });
+        // every sequence number 0..=300 and two on either side of every power of two, through decode / encode
+        let small = (0..=300u64)
+            .chain((3..64u32).flat_map(|p| {
+                let b = 1u64 << p;
+                [b - 2, b - 1, b, b + 1]
+            }))
+            .chain([u64::MAX - 1, u64::MAX])
+            .map(|seq| {
+                let fam = if seq % 3 == 0 { FamId::Ed } else { FamId::K256 };
+                Case::Hist(History { fam, keys: history::exhaustive_keys(fam), init: Init::Decoded { seq, pairs: vec![] }, ops: vec![Op::Redecode, Op::SetPort { which: PortKey::Udp, port: 1, k: 0 }], fault_at: None, alt_keys: vec![] })
+            });
         let nrt = if quick { 500u64 } else { 4000 };
         let rt = (0..nrt).map(|j| {
             let e = det_entropy("c07/rt", j, 64);
@@ -183,7 +216,7 @@ impl Property for C07 {
                 })
             })
         });
-        Box::new(single.chain(rt).chain(pairs).chain(history::long_repeats(quick).into_iter().map(Case::Hist)))
+        Box::new(single.chain(small).chain(rt).chain(pairs).chain(history::long_repeats(quick).into_iter().map(Case::Hist)))
     }
     fn fuzz_plans(&self) -> Vec<(&'static str, u64)> {
         vec![("history", 10000)]
